@@ -1,32 +1,51 @@
 import LocustModel.Store.Proto
 /-
   Driver for C18.  Input: a history line (see `LocustModel/Store/Proto.lean`) ending with the observed directory
-  listing `L…`, or `LAT <n>` for the ingestion-latency stream.
+  listing `L…`, or `LAT <n> … limit=<max_wal_size_bytes> pre=<recovered size> sizes=<accounted size of each call>`
+  for the ingestion-latency stream.
   Output:  <model listing + catalogue> TAB <OK | BAD … | SKIP>
     model: files predicted by the machine model (catalogue file, log segments, partition files) and its catalogue;
-    spec : after a completed flush the listing must be exactly {meta} ∪ files of the catalogue found on disk;
+    spec : after a completed flush the listing must be exactly {meta} ∪ files of the catalogue found on disk ∪ the
+           segments of the calls that returned since that flush froze the buffers; the segments of all calls that
+           returned before an ANSWERED force_flush was registered must be gone;
            in every step the observed effect phases must store partition files before the catalogue file and remove
            files only after it.
 -/
 namespace LM.DrvC18
 open LM.Proto LM.Store.Drv
 
+def kv (toks : List String) (key : String) : Option String :=
+  (toks.find? (fun t => t.startsWith (key ++ "="))).map (fun t => (t.drop (key.length + 1)).toString)
+
 def step (line : String) : String :=
   match splitTokens line with
-  | "LAT" :: _ => "returned\treturned"   -- C18_ingest_enabled_after_freeze: every call is enabled once the freeze ran
+  | "LAT" :: rest =>
+    -- model: the gate / trigger predicates of Store/Interleave.lean evaluated on the accounted sizes;
+    -- spec (C18_no_stuck_ingest): every call returns
+    let limit := ((kv rest "limit").bind (·.toNat?)).getD 1
+    let pre := ((kv rest "pre").bind (·.toNat?)).getD 0
+    let sizes := match kv rest "sizes" with
+      | some l => if l = "[]" then [] else (l.splitOn ",").filterMap (·.toNat?)
+      | none => []
+    latencyModel limit pre sizes ++ "\treturned"
   | _ =>
   match runLine2 line with
   | none => "bad-op\tbad-op"
   | some (s, ltok, etok) =>
-    let model := listingModel s ++ " " ++ catalogueModel s ++ (if etok.isSome then " " ++ effectsModel s else "")
+    let model := listingModel s ++ " " ++ catalogueModel s ++ (if etok.isSome then " " ++ effectsModel s else "") ++
+      (if s.inter then s!" A={s.done.length}" else "")
     let specL := match ltok with
-      | some l => if s.lastWasFlush then judgeListing s.lastObs l else "SKIP"
+      | some l => if s.lastWasFlush then judgeListingInter s.lastObs s.sinceFreezeN l else "SKIP"
+      | none => "SKIP"
+    let specA := match ltok with
+      | some l => if s.answered.isEmpty then "SKIP" else judgeAnswered s l
       | none => "SKIP"
     let specE := match etok with
       | some e => judgeEffects e
       | none => "SKIP"
-    let spec := if specL.startsWith "BAD" then specL else if specE.startsWith "BAD" then specE
-                else if specL = "SKIP" && (specE = "SKIP" || etok = some "E_") then "SKIP" else "OK"
+    let spec := if specL.startsWith "BAD" then specL else if specA.startsWith "BAD" then specA
+                else if specE.startsWith "BAD" then specE
+                else if specL = "SKIP" && specA = "SKIP" && (specE = "SKIP" || etok = some "E_") then "SKIP" else "OK"
     model ++ "\t" ++ spec
 
 end LM.DrvC18
